@@ -26,4 +26,22 @@ pub uninterp spec fn bytes_of(s: &str) -> Seq<u8>;
 pub open spec fn is_digit(c: u8) -> bool { 48 <= c <= 57 }
 #[verifier::external_body] pub fn all_ascii_digit(a: &[u8]) -> (r: bool) ensures r == (forall|i: int| 0 <= i < a@.len() ==> is_digit(#[trigger] a@[i])) { unimplemented!() }
 
+// ---- Var::codegen: which symbol a global binds and whether #[link_name] is spelled out
+#[verifier::external_body] pub struct Tok { _p: core::marker::PhantomData<()> }
+pub uninterp spec fn link_name_of(t: Tok) -> Seq<u8>;       // the symbol a #[link_name = "\u{1}.."] attribute names
+// attributes::link_name::<false>(name)
+#[verifier::external_body] pub fn attr_link_name(name: &str) -> (r: Tok) ensures link_name_of(r) == bytes_of(name) { unimplemented!() }
+#[verifier::external_body] pub struct Var { _p: core::marker::PhantomData<()> }
+impl Var {
+    pub uninterp spec fn s_link_name(&self) -> Option<&'static str>;       // generated_link_name_override callback
+    pub uninterp spec fn s_mangled_name(&self) -> Option<&'static str>;
+    pub uninterp spec fn s_name(&self) -> &'static str;
+    #[verifier::external_body] pub fn link_name(&self) -> (r: Option<&str>) ensures r == self.s_link_name() { unimplemented!() }
+    #[verifier::external_body] pub fn mangled_name(&self) -> (r: Option<&str>) ensures r == self.s_mangled_name() { unimplemented!() }
+    #[verifier::external_body] pub fn name(&self) -> (r: &str) ensures r == self.s_name() { unimplemented!() }
+}
+// canonical_name.as_str()
+#[verifier::external_body] pub fn string_as_str(s: &String) -> (r: &str) ensures bytes_of(r) == bytes_of_string(s) { unimplemented!() }
+pub uninterp spec fn bytes_of_string(s: &String) -> Seq<u8>;
+
 } // verus!
